@@ -191,3 +191,178 @@ func H11Dist() {
 	vndAssert(h11Close(sum, 1), "pmf-sums-to-1"+sfx)
 	vndAssert(okAcc, "pmf-accumulates-to-cdf"+sfx)
 }
+
+// h11LargePattern returns, for a concrete pattern number, the level (rank class) of
+// every element of the two samples; equal levels are tied values.
+func h11LargePattern(pat int) (l1, l2 []int, levels int) {
+	mk := func(n1, n2 int) {
+		// untied, interleaved with a drift so that U is not central
+		for i := 0; i < n1; i++ {
+			l1 = append(l1, 3*i)
+		}
+		for i := 0; i < n2; i++ {
+			l2 = append(l2, 3*i+1+(i%4))
+		}
+	}
+	switch pat {
+	case 0: // 26 v 26, ties in the middle, unique maximum
+		mk(26, 26)
+		l2[5], l2[6], l2[7] = l1[6], l1[6], l1[9]
+	case 1: // 26 v 26, ties only at the maximum
+		mk(26, 26)
+		l1[25] = l2[25]
+		l2[24] = l2[25]
+	case 2: // 51 v 51 without ties
+		mk(51, 51)
+	case 3: // 26 v 3 with ties
+		mk(26, 3)
+		l2[1] = l1[10]
+	case 4: // 30 v 30, one tie at the minimum, unique maximum
+		mk(30, 30)
+		l2[0] = l1[0]
+	case 5: // 51 v 2 without ties
+		mk(51, 2)
+	default:
+		panic("no such pattern")
+	}
+	// compress the levels to 0..levels-1 preserving order
+	used := map[int]bool{}
+	for _, l := range l1 {
+		used[l] = true
+	}
+	for _, l := range l2 {
+		used[l] = true
+	}
+	idx := map[int]int{}
+	for l := 0; l < 400; l++ {
+		if used[l] {
+			idx[l] = levels
+			levels++
+		}
+	}
+	for i := range l1 {
+		l1[i] = idx[l1[i]]
+	}
+	for i := range l2 {
+		l2[i] = idx[l2[i]]
+	}
+	return
+}
+
+// H11Large: samples beyond the exact limits. Some values are arbitrary floats (see below) subject to
+// one concrete weak ordering of the pooled values (pattern); U must be the pair count and
+// the p-value the tie- and continuity-corrected normal approximation, evaluated here
+// independently from the ordering alone.
+func H11Large() {
+	pat := vndParam("pattern")
+	alt := []LocationHypothesis{LocationLess, LocationDiffers, LocationGreater}[vndParam("alt")]
+	l1, l2, levels := h11LargePattern(pat)
+	// Level k has the concrete value 1000+10k, except for the tied levels, the extreme
+	// levels and every seventh level, whose values are arbitrary floats strictly between
+	// their neighbours' concrete values (every float comparison involving them is decided
+	// by the solver).
+	cntL := make([]int, levels)
+	for _, l := range l1 {
+		cntL[l]++
+	}
+	for _, l := range l2 {
+		cntL[l]++
+	}
+	vals := make([]float64, levels)
+	for k := range vals {
+		vals[k] = float64(1000 + 10*k)
+		if cntL[k] > 1 || k == 0 || k == levels-1 || k%7 == 3 {
+			v := vndFloat64("v")
+			vndAssume(vndAnd(v > float64(1000+10*k-10), v < float64(1000+10*k+10)))
+			if k > 0 {
+				vndAssume(vals[k-1] < v)
+			}
+			vals[k] = v
+		} else if k > 0 {
+			vndAssume(vals[k-1] < vals[k])
+		}
+	}
+	n1, n2 := len(l1), len(l2)
+	x1, x2 := make([]float64, n1), make([]float64, n2)
+	// hand the samples over unsorted (reversed)
+	for i, l := range l1 {
+		x1[n1-1-i] = vals[l]
+	}
+	for i, l := range l2 {
+		x2[n2-1-i] = vals[l]
+	}
+	r, err := MannWhitneyUTest(x1, x2, alt)
+	vndReach("h11:large")
+	vndAssert(err == nil && r != nil, "large-samples-are-tested")
+	if err != nil || r == nil {
+		return
+	}
+	// U from the ordering
+	u2 := 0 // in half units
+	for _, a := range l1 {
+		for _, b := range l2 {
+			if a > b {
+				u2 += 2
+			} else if a == b {
+				u2++
+			}
+		}
+	}
+	u := float64(u2) / 2
+	vndAssert(r.U == u, "large-u-is-the-pair-count")
+	// tie correction from the multiplicities of the levels
+	cnt := make([]int, levels)
+	for _, l := range l1 {
+		cnt[l]++
+	}
+	for _, l := range l2 {
+		cnt[l]++
+	}
+	tc := 0.0
+	for _, c := range cnt {
+		tc += float64(c*c*c - c)
+	}
+	N := float64(n1 + n2)
+	mu := float64(n1*n2) / 2
+	sigma := math.Sqrt(float64(n1*n2) / 12 * ((N + 1) - tc/(N*(N-1))))
+	d := u - mu
+	cdf := func(z float64) float64 { return 0.5 * math.Erfc(-z/math.Sqrt2) }
+	want := 0.0
+	switch alt {
+	case LocationLess:
+		want = cdf((d + 0.5) / sigma)
+	case LocationGreater:
+		want = 1 - cdf((d-0.5)/sigma)
+	default:
+		ad := math.Abs(d) - 0.5
+		if d == 0 {
+			ad = 0
+		}
+		want = 2 * (1 - cdf(ad/sigma))
+	}
+	vndObserveF64("p", r.P)
+	vndAssert(math.Abs(r.P-want) <= 1e-9*math.Max(want, 1e-300)+1e-15, "large-p-is-the-corrected-normal-approximation")
+	vndAssert(r.P >= 0 && r.P <= 1, "large-p-in-unit-interval")
+}
+
+// H11Choose: the binomial coefficient used to normalise the tied distribution, for every
+// (n, k) up to the bound (n and k are solver-chosen and case-split), against Pascal's rule.
+func H11Choose() {
+	max := vndParam("max")
+	n := vndConcretize(vndInt("n", 0, max))
+	k := vndConcretize(vndInt("k", 0, n))
+	row := []uint64{1}
+	for i := 1; i <= n; i++ {
+		next := make([]uint64, i+1)
+		next[0], next[i] = 1, 1
+		for j := 1; j < i; j++ {
+			next[j] = row[j-1] + row[j]
+		}
+		row = next
+	}
+	want := float64(row[k])
+	got := mathChoose(n, k)
+	vndReach("h11:choose")
+	vndAssert(math.Abs(got-want) <= 1e-9*want, "binomial-coefficient")
+	vndAssert(mathChoose(n, n+1) == 0 && mathChoose(n, -1) == 0, "binomial-coefficient-outside")
+}
